@@ -4,13 +4,14 @@
 set -u
 dir="$1"; demo="$2"; dest="$3"; pkg="$4"; run="$5"
 export GOFLAGS=-mod=mod GOPROXY=off GOSUMDB=off GOTOOLCHAIN=local
+race=""; [ -n "${SEED_VERIFY_RACE:-}" ] && race="-race"
 wt=/tmp/seedverify-$$
 git -C /repo worktree add -q --detach "$wt" HEAD || exit 2
 cd "$wt"
 cp "$dir/$demo" "$dest"
-go test -vet=off -count=1 -run "$run" "$pkg" > /tmp/sv-$$-a.log 2>&1; a=$?
+go test $race -vet=off -count=1 -run "$run" "$pkg" > /tmp/sv-$$-a.log 2>&1; a=$?
 git apply "$dir/patch.diff" || { echo "PATCH DOES NOT APPLY"; cd /; git -C /repo worktree remove --force "$wt"; exit 3; }
-go test -vet=off -count=1 -run "$run" "$pkg" > /tmp/sv-$$-b.log 2>&1; b=$?
+go test $race -vet=off -count=1 -run "$run" "$pkg" > /tmp/sv-$$-b.log 2>&1; b=$?
 rm -f "$dest"
 go build ./... > /tmp/sv-$$-c.log 2>&1 && go test -vet=off -count=1 ./... >> /tmp/sv-$$-c.log 2>&1; c=$?
 echo "demo without patch: exit $a | demo with patch: exit $b ($(grep -c -- '--- FAIL' /tmp/sv-$$-b.log) FAIL lines) | suite with patch: exit $c ($(grep -c '^ok' /tmp/sv-$$-c.log) ok)"
